@@ -231,7 +231,8 @@ def run(ctx):
     # files: dense programs, a comment-shape file, corpus inputs
     files = []
     for lang in hazard.DENSE:
-        files.append(("dense_%s" % lang, hazard.DENSE[lang].encode(), lang))
+        for vn, text in hazard.variants(lang):
+            files.append(("dense_%s_%s" % (lang, vn), text.encode(), lang))
     files.append(("boxed", BOXED.encode(), "C"))
     files.append(("comments", ("\n".join("int v%d; %s\nint w%d;" % (i, c, i) for i, c in enumerate(COMMENTS)) + "\n").encode(), "C"))
     ins = corpus.inputs()
